@@ -302,6 +302,11 @@ def c01(tier):
             for cache, lock in ((None, None), (False, 2)):
                 scen_steps.append(rl.Scenario("head-" + hs, {"f1.rs": [S(11, ref=1), S(12, ref=7), S(13, ref=3)], "f2.rs": [S(21), S(22)]},
                                               lock=lock, use_cache=cache, structured=structured, head_style=hs))
+    # literals with quote characters / a trailing backslash in front of the statements that carry the existing IDs
+    for structured in (False, True):
+        for cache, lock in ((None, None), (False, 2)):
+            scen_steps.append(rl.Scenario("literal-prelude", {"f1.rs": [S(11, ref=1), S(12, ref=7), S(13, ref=3)], "f2.rs": [S(21), S(22)]},
+                                          lock=lock, use_cache=cache, structured=structured, literal_prelude=True))
     # where the files are and how the macros are configured: existing IDs below directories a tool might want to skip
     # (target, hidden, deep), and macro names configured under two modules with statements qualified either way
     for structured in (False, True):
@@ -405,6 +410,13 @@ def c02(tier):
         K, n = rl.sweep(binary, sc, "edit", kinds, batch, v, follow="c02",
                         pre_steps=[("edit", ""), ("devfn", "delete_highest_and_add", 7)])
         log("[sweep] %s (second run of a history): %d operations, %d histories" % (sc.name, K, n))
+    # an in-scope file (whichever position the directory order gives it) holds a token whose number does not fit the ID type
+    over = {"src/aa_over.rs": 'fn a() { info!("[ref: 9999999999] over the range"); }\n',
+            "src/zz_over.rs": 'fn z() { info!("[ref: 4294967296] just over"); }\n'}
+    for lock in (None, 10):
+        sc = rl.Scenario("over-range-token", {"f1.rs": [S(11), S(12, ref=3)], "f2.rs": [S(21), S(22)], "mm.rs": [S(31)]},
+                         lock=lock, extra_files=over)
+        rl.planned_runs(binary, sc, [[("edit", "")]], batch, v, follow="c02", sigbase={"over_range_token": True})
     # a later run of a history (after the highest-numbered statement was deleted) cannot examine / open / read the lock
     for structured in (False, True):
         sc = rl.Scenario("lock-unreadable-later", {"f1.rs": [S(11), S(12)], "f2.rs": [S(21)]}, lock=None, structured=structured)
@@ -451,6 +463,14 @@ def c04(tier):
         for tree in ({"f1.rs": [S(11), S(12, ref=3)]}, {"f1.rs": [S(11, ref=1)]}):
             sc = rl.Scenario("tmpdir-missing", tree, lock=5, structured=structured, tmp_missing=True, extra_files=EXTRA)
             rl.planned_runs(binary, sc, [[("check", "")]], batch, v, sigbase={"tmp_missing": True})
+    # the process environment: variables by which CI systems name files a tool may write to, and a standard output that
+    # cannot be written (full device, reader gone) - whatever that does to the run, nothing may be created or changed
+    for structured in (False, True):
+        for tree in ({"f1.rs": [S(11), S(12, ref=3)], "f2.rs": [S(21)]}, {"f1.rs": [S(11, ref=1)], "f2.rs": [S(21, ref=2)]}):
+            for kw in ({"ci_env": True}, {"stdout_to": "full"}, {"stdout_to": "closed-pipe"}, {"ci_env": True, "stdout_to": "full"}):
+                sc = rl.Scenario("env-" + "-".join("%s" % v1 for v1 in kw.values()), tree, lock=5, structured=structured,
+                                 extra_files=EXTRA, **kw)
+                rl.planned_runs(binary, sc, [[("check", "")]], batch, v, sigbase={k: str(v1) for k, v1 in kw.items()})
     env_step(v, binary, batch, tier, mode="check")
     kinds = ["EIO", "EACCES", "TERM", "INT", "kill_after"] if tier == "thorough" else ["EIO", "TERM", "kill_after"]
     for structured in (False, True):
@@ -495,6 +515,17 @@ def c05(tier):
     # (c) rename failures: the printed count must be the number actually inserted
     for sc in rl.small_trees():
         rl.planned_runs(binary, sc, [[("edit", "op=rename,nth=1:errno=5")], [("edit", "op=rename,nth=0:errno=18")]], batch, v)
+    # the printed count when a file fails after IDs were taken for it: write failures at every scratch-file operation, and the
+    # ID range running out in the middle of a file
+    for structured in (False, True):
+        sc = rl.Scenario("count-under-faults", {"f1.rs": [S(11), S(12), S(13)], "f2.rs": [S(21), S(22)], "f3.rs": [S(31), S(32, ref=2)]},
+                         structured=structured, pad=30000)
+        rl.sweep(binary, sc, "edit", ["ENOSPC"], batch, v, only_ops=("tmp.create", "tmp.write"))
+        hi = rl.bl.U32MAX - 9
+        for lock in (8, 9):
+            sc = rl.Scenario("count-range-runs-out", {"f1.rs": [S(11), S(12), S(13)], "f2.rs": [S(21), S(22)]}, lock=lock, base=hi,
+                             structured=structured)
+            rl.planned_runs(binary, sc, [[("edit", "")]], batch, v, sigbase={"embedding": "high"})
     # an extension that is configured twice (literally, or in two letter cases) still means every file once
     for structured in (False, True):
         for exts in (["rs", "rs"], ["rs", "RS"], ["txt", "rs", "rs"]):
@@ -720,7 +751,10 @@ def c07(tier):
     for sc in scens:
         sc.kw["extra_files"] = EXTRA
         small = sum(len(x) for x in sc.tree.values()) <= 12 and not sc.kw.get("pad")
-        K, n = rl.sweep(binary, sc, "edit", kinds, batch, v, follow=("recover" if small else None))
+        # a stop request is one more thing that can happen at any operation: while a file with many statements is being
+        # written, too (the file must still end up complete or untouched)
+        kk = kinds + (["TERM"] if sc.name.startswith("sized-10k") else [])
+        K, n = rl.sweep(binary, sc, "edit", kk, batch, v, follow=("recover" if small else None))
         log("[sweep] %s: %d operations, %d runs" % (sc.name, K, n))
     # the same sweep with TMPDIR on another file system (no file can be moved into place; nothing may appear in the project)
     for structured in (False, True):
@@ -770,6 +804,13 @@ def c08(tier):
             for nth in (0, 2):
                 for e in (5, 28, 18) if op == "rename" else (5, 28):
                     multi.append([("edit", "op=%s,nth=%d:errno=%d" % (op, nth, e)), ("check", "")])
+        # persistent failures with errnos a file system uses for "not supported here" (what an fsync-style call may meet)
+        for e in (22, 38, 95):
+            multi.append([("edit", "op=write,path=.tmp,nth=0:errno=%d" % e), ("check", "")])
+            multi.append([("edit", "op=fsync,nth=0:errno=%d" % e), ("check", "")])
+        # a run in which every file fails, then (more than a second later) an ordinary run: it must do the work
+        multi.append([("edit", "op=rename,nth=0:errno=5"), ("sleep", 1.3), ("edit", ""), ("check", "")])
+        multi.append([("edit", "op=open,path=.tmp,nth=0:errno=28"), ("sleep", 1.3), ("edit", ""), ("check", "")])
         multi.append([("edit", "op=rename,nth=1:errno=18;op=write,path=.tmp,nth=3:errno=5"), ("check", "")])
         multi.append([("edit", "op=open,path=.tmp,nth=1:errno=13;op=rename,nth=1:errno=5"), ("check", "")])
         rl.planned_runs(binary, sc, multi, batch, v)
